@@ -29,7 +29,7 @@ ASSUMPTIONS = [
 ]
 EXHAUSTIVE = {'quick': True, 'thorough': True}
 PLACEMENTS = ['first2', 'first3', 'hospital', 'lecturer']
-NMAX = {'quick': 10, 'thorough': 13}
+NMAX = {'quick': 11, 'thorough': 14}
 
 
 def budget(tier):
